@@ -151,6 +151,13 @@ fn run<G: Group>(sc: &Scenario, st: &mut RunStats) -> Vec<Violation> {
         let r = verify::<G>(&ctxs, &sts, &proofs, a);
         st.evals += 1;
         st.fault("capacity_skew_batch");
+        if b.members.len() > 256 {
+            st.fault("capacity_skew_batch_beyond_one_chunk");
+            let ms: Vec<usize> = b.members.iter().map(|(mi, _)| sc.msgs[*mi].m).collect();
+            if ms.iter().any(|m| *m != ms[0]) {
+                st.probe("mixed_aggregation_factors_beyond_one_chunk");
+            }
+        }
         let all_ok = b.members.iter().all(|(mi, _)| preps[*mi].base[ai].starts_with("Ok"));
         st.event(format!("batch{} members={:?} {} -> {}", bi, b.members, action_name(a), digest(&[render_verify(&r).as_bytes()])));
         let key = "batch".to_string();
@@ -270,6 +277,34 @@ impl Check for C12 {
                 .collect();
             batches.push(Batch { members, action: rng.usize_below(3) });
         }
+        // some runs: one batch that spans more than one chunk of 256, honest members of mixed aggregation factors
+        // and capacities; the member with the largest aggregation factor lands anywhere
+        if !ristretto && bits <= 8 && rng.chance(1, 10) {
+            let honest: Vec<usize> = (0..n).filter(|i| !msgs[*i].corrupt).collect();
+            let k = match rng.below(4) {
+                0 => 257,
+                1 => rng.range(258, 300) as usize,
+                2 => 512 + rng.usize_below(3),
+                _ => 256 + rng.range(1, 8) as usize,
+            };
+            let k = if tier == Tier::Quick { k.min(300) } else { k };
+            // mostly the smallest message, a few larger ones at seeded positions
+            let smallest = *honest.iter().min_by_key(|i| msgs[**i].m).unwrap();
+            let mut members: Vec<(usize, usize)> = (0..k)
+                .map(|_| (smallest, pow2_at_least(rng, msgs[smallest].m).min(max_cap).max(msgs[smallest].m)))
+                .collect();
+            for _ in 0..rng.range(1, 3) {
+                let mi = *rng.pick(&honest);
+                let pos = match rng.below(4) {
+                    0 => k - 1,
+                    1 => 256,
+                    2 => rng.usize_below(8),
+                    _ => rng.usize_below(k),
+                };
+                members[pos] = (mi, pow2_at_least(rng, msgs[mi].m).min(max_cap).max(msgs[mi].m));
+            }
+            batches.push(Batch { members, action: rng.usize_below(3) });
+        }
         let gen_pairs = (0..rng.range(2, 3))
             .map(|_| (pow2_at_least(rng, 1).min(max_cap), pow2_at_least(rng, 1).min(max_cap)))
             .collect();
@@ -324,6 +359,6 @@ impl Check for C12 {
     }
 
     fn required_probes(&self, _tier: Tier) -> Vec<&'static str> {
-        vec!["capacity_skew_single", "capacity_skew_batch", "capacity_skew_generators", "corrupted_member"]
+        vec!["capacity_skew_single", "capacity_skew_batch", "capacity_skew_generators", "corrupted_member", "capacity_skew_batch_beyond_one_chunk", "mixed_aggregation_factors_beyond_one_chunk"]
     }
 }
